@@ -61,7 +61,26 @@ var lapspDesc = &lmDesc{
 	},
 }
 
-func (lapsp) Run(c Case) Result { return lmRun(lapspDesc, c) }
+var lapspDecf = lsDecfCfg{d: lapspDesc, lt: layers.LayerTypeAPSP,
+	conv: func(l gopacket.Layer) gopacket.Layer { // decodeAPSP adds the layer as a value
+		if v, ok := l.(layers.APSP); ok {
+			return &v
+		}
+		return l
+	},
+	next: func(l gopacket.Layer, b *lmBuilder) string {
+		if b.next == gopacket.Decoder(layers.LayerTypeIPv4) {
+			return "t4"
+		}
+		return fmt.Sprintf("other%v", b.next)
+	}}
+
+func (lapsp) Run(c Case) Result {
+	if lsHasDecf(c) {
+		return lsRunDecf(lapspDecf, c)
+	}
+	return lmRun(lapspDesc, c)
+}
 
 func apExt(rng *rand.Rand, n int) []byte {
 	b := lnRandBytes(rng, n)
@@ -111,6 +130,13 @@ func (lapsp) Gen(rng *rand.Rand, tier string) []Case {
 						add("tag:field-byte-extreme", "dec2:"+lnHex(valid(rng))+","+lnHex(p))
 					}
 				}
+			}
+			// the registered decoder decodeAPSP (NilDecodeFeedback: the truncated flag does not reach the builder)
+			for _, k := range []int{0, 1, 39, 40, 41, 60} {
+				add("tag:length-extreme", "decf:"+lnHex(lnRandBytes(rng, k)))
+			}
+			for i := 0; i < 30; i++ {
+				add("decf:" + lnHex(valid(rng)))
 			}
 			// lengths around the 40-octet bound
 			for k := 36; k <= 44; k++ {
